@@ -26,6 +26,7 @@ ap.add_argument('seed_id'); ap.add_argument('prop'); ap.add_argument('src')
 ap.add_argument('--checks', default=None)
 ap.add_argument('--skip-tests', action='store_true')
 ap.add_argument('--budget', default='20')
+ap.add_argument('--first-home', default=None, help='frozen checkout of /verif to record the first-contact result with')
 a = ap.parse_args()
 
 patch = os.path.join(a.src, 'patch.diff')
@@ -81,12 +82,20 @@ try:
     # ---- our checks -----------------------------------------------------------------------------
     checks = (a.checks or a.prop).split(',')
     meta['checks'] = {}
-    for c in checks:
-        r = sh([sys.executable, os.path.join(HERE, 'tools', 'mutant.py'), c, '--patch', patch, '--budget', a.budget], timeout=3000)
-        lines = r.stdout.strip().splitlines()
-        verdict = lines[-1] if lines else 'no output'
-        keys = sorted({l.split('key=', 1)[1].split(' ', 1)[0] for l in lines if 'key=' in l})
-        meta['checks'][c] = dict(result=verdict.split('=> ')[-1], unlisted_keys=keys[:12])
+    homes = [('checks', None)]
+    if a.first_home:
+        # a frozen checkout of /verif as it was before this seed was looked at: what the checks said at first contact
+        homes.insert(0, ('first_contact', a.first_home))
+        meta['first_contact'] = {'verif_commit': sh(f'git -C {a.first_home} rev-parse --short HEAD').stdout.strip()}
+    for slot, home in homes:
+        for c in checks:
+            env = dict(os.environ, VERIF_HOME=home) if home else None
+            r = sh([sys.executable, os.path.join(HERE, 'tools', 'mutant.py'), c, '--patch', patch, '--budget', a.budget], timeout=3000,
+                   **({'env': env} if env else {}))
+            lines = r.stdout.strip().splitlines()
+            verdict = lines[-1] if lines else 'no output'
+            keys = sorted({l.split('key=', 1)[1].split(' ', 1)[0] for l in lines if 'key=' in l})
+            meta[slot][c] = dict(result=verdict.split('=> ')[-1], unlisted_keys=keys[:12])
 finally:
     subprocess.run(f'git -C /repo worktree remove --force {wt}', shell=True, capture_output=True)
     shutil.rmtree(wt, ignore_errors=True)
@@ -106,4 +115,4 @@ if ok:
         meta['needs_to_manifest'] = 'see notes.md (author\'s description of the trigger)'
     with open(os.path.join(out, 'meta.json'), 'w') as f:
         json.dump(meta, f, indent=1)
-print(json.dumps({k: meta[k] for k in ('confirmed', 'tests', 'demo', 'checks') if k in meta}, indent=1)[:3000])
+print(json.dumps({k: meta[k] for k in ('confirmed', 'tests', 'demo', 'first_contact', 'checks') if k in meta}, indent=1)[:3000])
